@@ -10,14 +10,18 @@
 #ifndef VF_ARGL
 #define VF_ARGL 3
 #endif
+#ifndef VF_ARGL2
+#define VF_ARGL2 2     // length bound of the arguments after the first
+#endif
 #ifndef VF_CL
 #define VF_CL 5
 #endif
 
 static const Process::Option g_opts[] = {
-  {'a', "alpha", Process::optionFlag},
-  {'b', "beta", Process::argumentFlag},
-  {'g', "gamma", Process::argumentFlag | Process::optionalFlag},   // optional argument: long form only ('g' is not in the alphabet)
+  // short long-names so that complete long options fit into the bounded argument length
+  {'a', "aa", Process::optionFlag},
+  {'b', "bb", Process::argumentFlag},
+  {'g', "xx", Process::argumentFlag | Process::optionalFlag},   // optional argument: long form only ('g' is not in the alphabet)
 };
 
 struct Ev { int ch; char text[16]; unsigned len; };
@@ -31,7 +35,7 @@ extern "C" int arguments()
   argv[0] = (char*)vf_alloc(2); argv[0][0] = 'p'; argv[0][1] = 0;
   for(unsigned i = 1; i < argc; ++i)
   {
-    unsigned n = vf_pick(VF_ARGL + 1); lens[i] = n;
+    unsigned n = vf_pick((i == 1 ? VF_ARGL : VF_ARGL2) + 1); lens[i] = n;
     argv[i] = (char*)vf_alloc(n + 1);
     for(unsigned j = 0; j < n; ++j) { byte b = vf_u8(); vf_assume((b == '-') | (b == '=') | (b == 'a') | (b == 'b') | (b == 'x')); argv[i][j] = (char)b; }
     argv[i][n] = 0;
@@ -49,7 +53,7 @@ extern "C" int arguments()
       if(n == 2) { skip = true; continue; }
       unsigned e = 2; while(e < n && s[e] != '=') ++e;
       bool hasEq = e < n; unsigned nameLen = e - 2;
-      int which = eq(s + 2, nameLen, "alpha") ? 0 : eq(s + 2, nameLen, "beta") ? 1 : eq(s + 2, nameLen, "gamma") ? 2 : -1;
+      int which = eq(s + 2, nameLen, "aa") ? 0 : eq(s + 2, nameLen, "bb") ? 1 : eq(s + 2, nameLen, "xx") ? 2 : -1;
       if(which < 0) { ref[rn].ch = '?'; ref[rn].len = n; for(unsigned j = 0; j < n; ++j) ref[rn].text[j] = s[j]; ++rn; continue; }
       vf_assume(!(which == 0 && hasEq));   // "--flag=value" is not specified
       ref[rn].ch = g_opts[which].character; ref[rn].len = 0;
